@@ -1,6 +1,6 @@
 """Property -> rules."""
 from .prog import Program
-from . import rules_cg, lalr, rules_dispatch, rules_wrap, rules_mem, rules_state, rules_dstr, rules_recurse, rules_misc, rules_critic, rules_esc, rules_wrapper, rules_anchor, rules_sink, rules_zip
+from . import rules_cg, lalr, rules_dispatch, rules_wrap, rules_mem, rules_state, rules_dstr, rules_recurse, rules_misc, rules_critic, rules_esc, rules_wrapper, rules_anchor, rules_sink, rules_zip, rules_format, rules_level, rules_balance, rules_kind
 
 _progs = {}
 
@@ -15,6 +15,7 @@ def c02(chk, tier):
     chk.explanation = ("Static: (1) R-NOEXIT call-graph reachability of process terminators from the public API.")
     rules_cg.r_noexit(P(), chk)
     lalr.r_lalr(P(), chk)
+    lalr.r_reduce(P(), chk)
     rules_dispatch.r_dispatch(P(), chk, "C02")
     rules_dispatch.r_linestrip(P(), chk)
     rules_dispatch.r_sibling_outline(P(), chk)
@@ -26,6 +27,7 @@ def c05(chk, tier):
     rules_state.r_reset(P(), chk)
     rules_mem.r_init(P(), chk)
     rules_state.r_srcconst(P(), chk)
+    rules_state.r_incdec(P(), chk)
 
 
 def c17(chk, tier):
@@ -40,25 +42,37 @@ def c04(chk, tier):
     rules_sink.r_sink(P(), chk, prop="C04")
     rules_sink.r_rawtoken(P(), chk)
     rules_esc.r_escaper_complete(P(), chk, formats=("html", "odf", "latex"))
+    rules_level.r_level(P(), chk)
+    rules_sink.r_sink_latex(P(), chk)
+    rules_balance.r_balance(P(), chk)
 
 
 def c06(chk, tier):
     chk.explanation = "Static: R-WRAP W1-W5 (delegation, language, ownership, per-format agreement, CLI) and R-PTRPTR."
     rules_wrap.r_wrap(P(), chk)
     rules_wrap.r_ptrptr(P(), chk)
+    rules_kind.r_enumkind(P(), chk)
 
 
 def c01(chk, tier):
-    chk.explanation = "Static: R-ARRAY (interval analysis of every fixed-array index/copy), R-TYPEWRITE, R-LOOKBEHIND, R-INIT, R-STALE."
+    chk.explanation = "Static: R-ARRAY (interval analysis of every fixed-array index/copy), R-TYPEWRITE, R-LOOKBEHIND, R-INIT, R-STALE, R-SCANIDX, R-SCANSTOP, R-OWN (nopool configuration), R-HEAPIDX, R-UAF, R-HASHKEY."
     rules_mem.r_array(P(), chk)
     rules_mem.r_lookbehind(P(), chk)
     rules_mem.r_init(P(), chk)
     rules_mem.r_stale(P(), chk)
+    rules_mem.r_scanidx(P(), chk)
+    rules_mem.r_scanstop(P(), chk)
+    rules_mem.r_own(P("nopool"), chk)
+    rules_mem.r_heapidx(P(), chk)
+    rules_mem.r_uaf(P(), chk)
+    rules_mem.r_hashkey(P(), chk)
 
 
 def c19(chk, tier):
     chk.explanation = "Static: R-DSTR ensure-before-write, re-termination, clamping, -1 forms, who-may-write."
     rules_dstr.r_dstr(P(), chk)
+    rules_dstr.r_editloop(P(), chk)
+    rules_mem.r_heapidx(P(), chk)
 
 
 def c07(chk, tier):
@@ -66,6 +80,7 @@ def c07(chk, tier):
     rules_recurse.r_recurse(P(), chk, tier)
     rules_recurse.r_consttime(P(), chk)
     rules_recurse.r_counter(P(), chk)
+    rules_state.r_incdec(P(), chk)       # a leaked increment defeats the depth guard on the next call
     if tier == "thorough":
         rules_recurse.r_recurse(P("nopool"), chk, tier)
 
@@ -74,6 +89,20 @@ def c13(chk, tier):
     chk.explanation = "Static: R-PUSHPOP (visited-stack guard brackets the recursive call) + R-ARRAY on transclude.c."
     rules_misc.r_pushpop(P(), chk)
     rules_mem.r_array(P(), chk, only_units={"transclude.c"})
+    # the manifest query must not expand the engine's own text (a later transclusion for another format would find no markers)
+    from .report import Check
+    sub = Check("C13", tier)
+    rules_state.r_srcconst(P(), sub)
+    rid = "R-SRCCONST/transclude"
+    chk.rule(rid, "library functions hand mmd_transclude_source (which edits its argument in place) a private copy, never the engine's source")
+    callers = [f for f in P().all_funcs if P().first_party(f) and f.unit.base != "transclude.c" and list(f.calls("mmd_transclude_source"))]
+    bad = [v for v in sub.viol if v["key"].endswith(":mmd_transclude_source")]
+    for f in callers:
+        hit = [v for v in bad if v["key"].split(":")[1] == f.name]
+        chk.obligation(rid, "%s:%s" % (f.unit.base, f.name), ok=not hit)
+    for v in bad:
+        chk.violation(rid, v["key"], v["where"], v["msg"])
+    chk.floor(rid, len(callers), 2, "callers of mmd_transclude_source outside transclude.c")
 
 
 def c18(chk, tier):
@@ -85,6 +114,7 @@ def c15(chk, tier):
     chk.explanation = "Static: R-ENUM compile-fail witnesses, R-LINK chain discipline, R-TYPEWRITE value origins."
     rules_misc.r_enum(P(), chk)
     rules_misc.r_link(P(), chk)
+    rules_misc.r_mate_guard(P(), chk)
     rules_misc.r_span_split(P(), chk)
     rules_mem.type_field_invariant(P(), chk)
 
@@ -99,6 +129,7 @@ def c14(chk, tier):
     chk.explanation = "Static: R-ESCPAIR escaper (EDPE over all 256 byte values) vs. unescaper table inversion."
     rules_esc.r_escpair(P(), chk)
     rules_dispatch.r_sibling_outline(P(), chk)
+    rules_level.r_level(P(), chk)
 
 
 def c16(chk, tier):
@@ -110,16 +141,19 @@ def c20(chk, tier):
     chk.explanation = "Static: R-WRAPPER-ORDER (header/footer bracket the body under one condition; snippet wins; control-key set; who reads metadata)."
     rules_wrapper.r_wrapper_order(P(), chk)
     rules_wrapper.r_metakey(P(), chk)
+    rules_wrapper.r_wrapbit(P(), chk)
 
 
 def c11(chk, tier):
     chk.explanation = "Static: R-METAKEY one key normal form at store and at every comparison / lookup (necessary condition only)."
     rules_wrapper.r_metakey(P(), chk)
+    rules_mem.r_scanstop(P(), chk)     # value/key scans stop at the end of input ("EOF without newline" clause)
 
 
 def c10(chk, tier):
     chk.explanation = "Static: R-ANCHOR anchor-family derivation agreement (reaching definitions), one label function, numbering stacks."
     rules_anchor.r_anchor(P(), chk)
+    rules_anchor.r_anchor_seed(P(), chk)
 
 
 def c08(chk, tier):
@@ -128,12 +162,15 @@ def c08(chk, tier):
     rules_sink.r_rawtoken(P(), chk)
     rules_esc.r_escaper_complete(P(), chk)
     rules_esc.r_escpair(P(), chk)
+    rules_balance.r_balance(P(), chk, units={"html.c", "opendocument-content.c"})
 
 
 def c09(chk, tier):
     chk.explanation = "Static: R-ZIPTABLE member tables / cross-literal agreement / finalisation; R-PTRPTR."
     rules_zip.r_ziptable(P(), chk)
     rules_wrap.r_ptrptr(P(), chk)
+    rules_format.r_formatpair(P(), chk)
+    rules_format.r_editdelta(P(), chk)
 
 
 PROPS = {
